@@ -18,7 +18,7 @@ func init() {
 		Text: "in the root package, a frame (QFrame) obtained from an operation that can fail - a call whose callee, or one of the functions it may dispatch to, can return a frame with a fresh error - is taken apart (its row index or columns read) only by code that also reads its Err: FilteredApply uses the index of qf.Filter(clause), Not complements the index its sub-clause produced, Or merges indexes; a failed operation returns the incoming frame with the error set, so its index is the whole frame and using it without looking at Err turns an invalid clause into `all rows` (or, complemented, `no row`) with no error",
 		Run:  runR137})
 	register(&Rule{ID: "R138", Name: "FAILURE-RETURNS-ERROR", Floor: 40,
-		Text: "(a) in every module function with an error result, the branch taken when an error value is non-nil (`if e != nil { ... return }`, the block entered directly by the true edge) does not return a nil error: whatever it returns in the error slot is not the nil constant, nor a call of a module function all of whose returns are nil; (b) no module function returns the pair (nil value, nil error) for a value result of interface, pointer, slice, map or function type - a failed operation that reports neither a value nor an error hands its caller a nil column, which the frame stores and the next operation dereferences - unless every caller inspects the value by a nil test or a comma-ok/switch type test before any other use",
+		Text: "(a) in every module function with an error result, the branch taken when an error value is non-nil (`if e != nil { ... return }`, the block entered directly by the true edge) does not return a nil error: whatever it returns in the error slot is not the nil constant, nor a call of a module function all of whose returns are nil; (b) no module function returns the pair (nil value, nil error) for a value result of interface, pointer, slice, map or function type - a failed operation that reports neither a value nor an error hands its caller a nil column, which the frame stores and the next operation dereferences - unless every caller inspects the value by a nil test or a comma-ok/switch type test before any other use; (c) in internal/ecolumn the branch entered directly when a column's strict flag is set, if it returns at once, returns an error (the value was not among the declared ones)",
 		Run:  runR138})
 	register(&Rule{ID: "R139", Name: "RANGE-OFFSET-BOUNDS", Floor: 1,
 		Text: "an element access s[k+c] with a constant c >= 1, where k is the key of a loop over all of t (range t, or 0 <= k < len(t)) and s is t itself or a slice allocated with len(t), is out of range in the last iteration; it must stand under a guard that bounds k+c (k+c < len(s), k < len(t)-c, k != len(t)-1). Frozen: none",
@@ -356,6 +356,39 @@ func runR138(c *Ctx) {
 				c.okTrivial(key, p.instrPos(ret), "the failure branch returns an error")
 			}
 		})
+		// (c) the branch entered directly when an enum's strict flag is set and that returns at once: by then the value
+		// was not found among the declared ones, so it reports that
+		if fn.Pkg.Pkg.Path() == rel("internal/ecolumn") {
+			eachInstr(fn, func(in ssa.Instruction) {
+				iff, ok := in.(*ssa.If)
+				if !ok {
+					return
+				}
+				cond, val := unNot(iff.Cond, true)
+				fld, _ := fieldOf(cond)
+				if fld == nil || fld.Name() != "strict" {
+					return
+				}
+				si := 0
+				if !val {
+					si = 1
+				}
+				blk := iff.Block().Succs[si]
+				if len(blk.Preds) != 1 || blk == iff.Block().Succs[1-si] {
+					return
+				}
+				ret, ok := blk.Instrs[len(blk.Instrs)-1].(*ssa.Return)
+				if !ok {
+					return
+				}
+				key := fnm + "|strict and undeclared"
+				if definitelyNilError(unspillResult(ret, ret.Results[ei]), 0) {
+					c.bad(key, p.instrPos(ret), "the branch taken for a strict (declared) enum returns a nil error: an undeclared value is accepted - as whatever code is returned with it - instead of being rejected")
+				} else {
+					c.okTrivial(key, p.instrPos(ret), "the strict branch returns an error")
+				}
+			})
+		}
 		// (b) no (nil, nil)
 		eachInstr(fn, func(in ssa.Instruction) {
 			ret, ok := in.(*ssa.Return)
@@ -882,4 +915,94 @@ func r142IsNullPredicate(fn *ssa.Function) bool {
 		}
 	})
 	return ok
+}
+
+// ---------- R144 ----------
+
+func init() {
+	register(&Rule{ID: "R144", Name: "ENUM-CODES-COMPARABLE", Floor: 1,
+		Text: "enum cells are small integer codes whose meaning is the column's own values table: wherever the code arrays of two different enum columns are handed to one kernel (a call that receives the data field of two distinct ecolumn.Column values), the call is dominated by a successful test that relates the two columns (a boolean function of the module called with both columns and answered true): comparing codes of columns with different value lists compares unrelated numbers, and the API promises an error for it",
+		Run:  runR144})
+}
+
+func runR144(c *Ctx) {
+	p := c.P
+	isEnumCol := func(t types.Type) bool {
+		n, ok := deref(t).(*types.Named)
+		return ok && n.Obj().Pkg() != nil && n.Obj().Pkg().Path() == rel("internal/ecolumn") && n.Obj().Name() == "Column"
+	}
+	// the enum column a `x.data` value is the code array of
+	ownerOf := func(v ssa.Value) ssa.Value {
+		fld, x := fieldOf(v)
+		if fld == nil || !isEnumCol(x.Type()) {
+			return nil
+		}
+		if sl, ok := fld.Type().Underlying().(*types.Slice); !ok || !strings.HasSuffix(sl.Elem().String(), "enumVal") {
+			return nil
+		}
+		return x
+	}
+	same := func(a, b ssa.Value) bool {
+		return a == b || accessPath(a) != "" && accessPath(a) == accessPath(b)
+	}
+	for _, fn := range p.FuncsIn("internal/ecolumn") {
+		fnm := fname(fn)
+		eachInstr(fn, func(in ssa.Instruction) {
+			call, ok := in.(*ssa.Call)
+			if !ok {
+				return
+			}
+			var owners []ssa.Value
+			for _, a := range call.Call.Args {
+				if o := ownerOf(a); o != nil {
+					dup := false
+					for _, q := range owners {
+						if same(q, o) {
+							dup = true
+						}
+					}
+					if !dup {
+						owners = append(owners, o)
+					}
+				}
+			}
+			if len(owners) < 2 {
+				return
+			}
+			key := fnm + "|codes of two columns"
+			related := false
+			for _, g := range dominatingGuards(call.Block()) {
+				cond, val := unNot(g.Cond, g.Val)
+				t, ok := cond.(*ssa.Call)
+				if !ok || !val {
+					continue
+				}
+				callee := t.Call.StaticCallee()
+				if callee == nil || callee.Pkg == nil || !inModule(callee.Pkg.Pkg) {
+					continue
+				}
+				hits := 0
+				for _, o := range owners {
+					for _, a := range t.Call.Args {
+						root := a
+						if ld, ok := a.(*ssa.UnOp); ok && ld.Op == token.MUL {
+							root = ld.X
+						}
+						if same(a, o) || same(root, o) {
+							hits++
+							break
+						}
+					}
+				}
+				if hits == len(owners) {
+					related = true
+				}
+			}
+			if related {
+				c.ok(key, p.instrPos(call), "the two columns were related by a test that dominates the call")
+			} else {
+				c.bad(key, p.instrPos(call), "the code arrays of two enum columns are compared by a kernel without a dominating test that the two columns have the same value list: codes of unrelated enums are compared as numbers instead of the comparison being refused")
+			}
+		})
+	}
 }
